@@ -430,9 +430,19 @@ static bool prepare(const Zone& z, Ctx& c, hz::Result& r) {
   c.offs = c.rz.offsets();
   bool ref0 = false;
   for (int i : c.rz.idx) if (i == 0) ref0 = true;
-  c.dc_default = c.rz.types[0].dst && ref0;
   c.dc_none_rule = c.rz.times.empty() && c.rz.has_rule;
-  if (c.dc_default) r.count("zones_with_dst_type0_referenced");
+  if (c.rz.types[0].dst && ref0 && !c.rz.times.empty()) {
+    // legacy file: pin the before-first type to what lookup() reports there
+    // (must be one of the file's types); everything else is still checked.
+    r.count("zones_with_dst_type0_referenced");
+    if (c.rz.times.front() > INT64_MIN) {
+      auto al = c.tz.lookup(glue::tp_of(static_cast<long long>(c.rz.times.front()) - 1));
+      bool found = false;
+      for (const auto& t : c.rz.types) if (t.off == al.offset && t.dst == al.is_dst && t.abbr == al.abbr) { c.rz.bf = t; c.rz.has_bf = true; found = true; break; }
+      if (!found) r.violation(g_prop + ":before-first-type", "zone " + z.id + ": lookup before the first transition reports a type the file does not contain", {"--zone", z.id, "--what", "load"});
+      else if (c.rz.bf.dst) r.cls("zone:legacy:before-first-is-dst"); else r.cls("zone:legacy:before-first-is-std");
+    }
+  }
   // consistency of the last recorded type with the footer (well-formedness)
   if ((c.rz.has_rule || c.rz.has_std_footer) && !c.rz.times.empty()) {
     ref::RType want = c.rz.has_rule ? c.rz.rule_at(c.rz.times.back()) : c.rz.rule_std;
